@@ -489,7 +489,7 @@ func c01SegmentLoop(c *Ctx) {
 	var readNext ssa.Instruction
 	for _, in := range S.Instrs {
 		if ci, ok := in.(ssa.CallInstruction); ok {
-			if nameMatches(c.CallX(ci).Name, "segmentedSync).reset") {
+			if r := c.Role("dagsync.seg.reset"); r != nil && ci.Common().StaticCallee() == r {
 				reset = in
 			}
 		}
@@ -614,7 +614,7 @@ func c01LimitSources(c *Ctx, f *Fn, limit, lnk *X, key string) {
 		switch {
 		case s.Op == "field" && s.Name == "adsDepthLimit":
 			c.OK("C01.f-limit-choice", k, f.SSA.Pos(), "default: the subscriber-wide advertisement depth limit")
-		case s.Op == "call" && nameMatches(s.Name, "dagsync.recursionLimit"):
+		case s.Op == "call" && s.Callee != nil && s.Callee == c.Role("dagsync.limit"):
 			arg := s.Args[0]
 			in, _ := s.V.(ssa.Instruction)
 			if in == nil {
@@ -713,7 +713,7 @@ func abbreviate(s string) string {
 
 // (g)
 func c01SelectorRewrite(c *Ctx) {
-	w := c.Func(dagsyncPkg, "withRecursionLimit")
+	w := c.RoleFn("dagsync.rewrite")
 	if w == nil {
 		c.Unk("C01.g-selector-rewrite", "dagsync.withRecursionLimit", token.NoPos, "not found")
 		return
